@@ -893,3 +893,43 @@ Example C14_writers_are_source_inhabited :
   bytes_of_items (map snd (fst (gwriteDescriptorsWithLength [ex_desc_user; ex_desc_stream_id]))) =
     [240; 8; 200; 3; 1; 2; 3; 82; 1; 7].
 Proof. vm_compute. repeat split. Qed.
+
+(* the two length functions calc_descriptor_length still took from the hand model are regenerated too (Gen/RestGen.v,
+   go/gen/restgen.go): calcDescriptorExtensionLength IS calc_extension_length; calcDescriptorUserDefinedLength IS
+   calc_user_defined_length (the `d == nil` test of the source is a companion boolean of the regenerated function — a list
+   does not tell a nil slice from an empty one — and Go guarantees a nil slice has length 0). *)
+Require Import Gen.RestGen Proofs.RestGenDesc.
+Theorem C14_leftover_lengths_are_source :
+  (forall d, calcDescriptorExtensionLength d = calc_extension_length d) /\
+  (forall d d_nil, (d_nil = true -> d = []) -> calcDescriptorUserDefinedLength d d_nil = calc_user_defined_length d).
+Proof. exact (conj extension_length_is_generated user_defined_length_is_generated). Qed.
+Print Assumptions C14_leftover_lengths_are_source.
+Example C14_leftover_lengths_are_source_inhabited :
+  calcDescriptorExtensionLength (Some {| DescriptorExtension_SupplementaryAudio := None; DescriptorExtension_Tag := 1;
+                                         DescriptorExtension_Unknown := Some [1; 2; 3] |}) = 4 /\
+  calcDescriptorUserDefinedLength [1; 2] false = 2 /\ calcDescriptorUserDefinedLength [] true = 0.
+Proof. exact extension_length_example. Qed.
+
+(* the two descriptor parsers go/gen/psigen.go leaves out are regenerated too (Gen/RestDesc.v: go/gen/restgen.go through the
+   statement translator of go/gen/demuxgen.go, outcome monad; the *BytesIterator parameter is returned with the results):
+   newDescriptorISO639LanguageAndAudioType with its run-time slice bounds — Panicked on an empty descriptor body, where the
+   model has ipanic — and newDescriptorExtension (shadowed variable, &b of a local slice).  im_rel: Done (i', Some v, nil)
+   with Ok (v, i') for the same descriptor and iterator, Done with an error with Err, Panicked with Panic. *)
+Require Import Gen.DemuxGen Gen.RestDesc Proofs.RestGenDesc2.
+Theorem C14_leftover_parsers_are_source : forall (W : Type) i offsetEnd (w : W),
+  im_rel W (newDescriptorISO639LanguageAndAudioType W i offsetEnd w) (new_descriptor_iso639 offsetEnd i) w /\
+  im_rel W (newDescriptorExtension W (sa_m W) i offsetEnd w) (new_descriptor_extension offsetEnd i) w.
+Proof. exact (fun W i o w => conj (iso639_is_generated W i o w) (extension_is_generated W i o w)). Qed.
+Print Assumptions C14_leftover_parsers_are_source.
+Example C14_leftover_parsers_are_source_inhabited :
+  newDescriptorISO639LanguageAndAudioType unit (new_iter [101; 110; 103; 3]) 4 tt =
+    Done (mk_iter [101; 110; 103; 3] 4,
+          Some {| DescriptorISO639LanguageAndAudioType_Language := [101; 110; 103]; DescriptorISO639LanguageAndAudioType_Type := 3 |},
+          None, tt) /\
+  newDescriptorISO639LanguageAndAudioType unit (new_iter [1; 2]) 0 tt = Panicked /\
+  new_descriptor_iso639 0 (new_iter [1; 2]) = Panic /\
+  newDescriptorExtension unit (sa_m unit) (new_iter [9; 7; 8]) 3 tt =
+    Done (mk_iter [9; 7; 8] 3,
+          Some {| DescriptorExtension_SupplementaryAudio := None; DescriptorExtension_Tag := 9; DescriptorExtension_Unknown := Some [7; 8] |},
+          None, tt).
+Proof. exact descriptor_leftovers_run. Qed.
